@@ -333,6 +333,8 @@ where
         // any thrown errors would've been caught here
         if self.errors.with_untracked(|map| map.is_empty()) {
             buf.push_str(&new_buf);
+            // what follows the boundary continues where the children stopped
+            *position = new_pos;
         } else {
             // otherwise, serialize the fallback instead
             (self.fallback)(self.errors).to_html_with_buf(
@@ -370,6 +372,8 @@ where
         // any thrown errors would've been caught here
         if self.errors.with_untracked(|map| map.is_empty()) {
             buf.append(new_buf);
+            // what follows the boundary continues where the children stopped
+            *position = new_pos;
         } else {
             // otherwise, serialize the fallback instead
             let mut fallback = String::with_capacity(Fal::MIN_LENGTH);
